@@ -59,6 +59,14 @@ Definition f28_plan : list (pfile * rendered) := mk_plan [([[105;110]%N], [97]%N
 Definition f28_cfg (v : variant) (dry : bool) : cfg :=
   {| c_mode := MName; c_strategy := Ignore; c_dry := dry; c_answers := (@nil (str)); c_fault := None; c_var := v |}.
 
+(* corpus/C06/F32_source_through_outward_link.json *)
+Definition f32_fs : fs := [([[105;110]%N], NDir); ([[105;110]%N; [108;110;107]%N], (NLink 1 {| up_abs := false; up_comps := [[46;46]%N; [111;117;116]%N] |})); ([[111;117;116]%N], NDir); ([[111;117;116]%N; [107;101;101;112;46;116;120;116]%N], (NFile 2))].
+
+Definition f32_plan : list (pfile * rendered) := mk_plan [([[105;110]%N], [108;110;107;47;107;101;101;112;46;116;120;116]%N, (RText [109;111;118;101;100;47;107;101;101;112;46;116;120;116]%N))].
+
+Definition f32_cfg (v : variant) (dry : bool) : cfg :=
+  {| c_mode := MPath; c_strategy := Stop; c_dry := dry; c_answers := (@nil (str)); c_fault := None; c_var := v |}.
+
 Definition all_fixed_but (f : variant -> variant) : variant := f fixed.
 Definition no_backlog_chdir : variant :=
   {| v_lexists_guard := true; v_recheck_after_mkdir := true; v_backlog_chdir := false; v_dry_abs_keys := true; v_component_containment := true |}.
